@@ -39,7 +39,7 @@ def _prestate(m, n, ps, t):
         s.start, s.end = t, t + 1000      # every system is due at the (arbitrary) current timestep and later
         q.append(s)
         m.systems.systems[s.id] = s
-    m.systems.execution_queue = list(q)
+    m.systems.execution_queue[:] = q          # (in place: the list object is the scheduler's own)
     return q
 
 
@@ -106,7 +106,7 @@ def complete_during_multistep(p0: int, p1: int, p2: int, c: int, t: int, at: int
         s_.start, s_.end, s_.at, s_.completes = t, t + 1000, None, False
         q.append(s_)
         m.systems.systems[s_.id] = s_
-    m.systems.execution_queue = list(q)
+    m.systems.execution_queue[:] = q          # (in place: the list object is the scheduler's own)
     m.systems.timestep = t
     for i in range(n):
         if c == i:
